@@ -382,8 +382,8 @@ def build(tier, seed):
     fl = (f"{SP}::_Simu.__Bc_Integration_Dim", f"{SP}::_Simu.add_surfLoad", f"{SP}::_Simu.add_lineLoad", f"{SP}::_Simu.add_volumeLoad", f"{SP}::_Simu.add_pressureLoad",
           f"{GP}::_GroupElem.Get_Elements_Nodes")
     for et in types2 + types3:
-        for kind in ("face", "line3d", "volume", "pressure"):
-            obs.append(Ob(f"C09.load.{et}.{kind}", ob_load, (et, kind, seed), "X", fl, bound="one gmsh box mesh, random polynomial coefficients (seeded), floats",
+        for kind, sd in [(k_, s_) for k_ in ("face", "line3d", "volume", "pressure") for s_ in (range(4) if tier == "thorough" else range(1))]:
+            obs.append(Ob(f"C09.load.{et}.{kind}" + (f".s{sd}" if sd else ""), ob_load, (et, kind, seed + sd), "X", fl, bound="one gmsh box mesh, random polynomial coefficients (seeded), floats",
                           clause="resultant and first moments equal the closed-form integrals (x thickness in 2-D); stray nodes contribute nothing", timeout=600))
     for dim in (1, 2, 3):
         for timo in (False, True):
